@@ -14,7 +14,10 @@ package main
 
 import (
 	"encoding/hex"
+
 	"fmt"
+	"github.com/ipfs/go-cid"
+	"github.com/ipni/go-libipni/ingest/schema"
 	"os"
 	"runtime/debug"
 
@@ -66,9 +69,27 @@ func main() {
 		fmt.Printf("replay kind=%s\n", r.Kind)
 		switch r.Kind {
 		case "ad":
-			doAd(c, *r.Ad, true)
+			if r.Hex != "" {
+				b, _ := hex.DecodeString(r.Hex)
+				g, err := schema.BytesToAdvertisement(cid.NewCidV1(0x71, []byte{0, 0}), b)
+				if err != nil {
+					panic(err)
+				}
+				doAd(c, fromGoAd(g), true)
+			} else {
+				doAd(c, *r.Ad, true)
+			}
 		case "chunk":
-			doChunk(c, *r.Chunk, true)
+			if r.Hex != "" {
+				b, _ := hex.DecodeString(r.Hex)
+				g, err := schema.BytesToEntryChunk(cid.NewCidV1(0x71, []byte{0, 0}), b)
+				if err != nil {
+					panic(err)
+				}
+				doChunk(c, fromGoChunk(g), true)
+			} else {
+				doChunk(c, *r.Chunk, true)
+			}
 		case "bytes":
 			b, _ := hex.DecodeString(r.Hex)
 			if r.Codec == "json" {
